@@ -28,7 +28,7 @@ def snapshot(data):
 def judge_doc(doc, cases, variants):
     from harness import absdoc, queryobs
     out = []
-    stats = {"cases": 0, "runs": 0, "nontrivial": 0}
+    stats = {"cases": 0, "runs": 0, "nontrivial": 0, "coll_agree": 0, "coll_differ": 0, "coll_opt_runs": 0, "coll_sample": None}
     for style, plain in variants:
         text = absdoc.concretise(doc, style, plain)
         data = absdoc.load(text)
@@ -37,15 +37,24 @@ def judge_doc(doc, cases, variants):
         for c in cases:
             stats["cases"] += 1
             modes = [("must", c["dot"]), ("exists", c["sl"])]
-            if not c["err"] and c["n"] > 0 and not c["dead"] and not c["info"]:
+            xinfo = c.get("xinfo", c["info"])      # collectors: `info` only keeps C01 silent; `xinfo` is the model's own flag
+            is_coll = "COLLECTOR" in c["ty"]
+            if not c["err"] and c["n"] > 0 and not c["dead"] and not xinfo:
                 modes.append(("opt", c["dot"]))
+                stats["coll_opt_runs"] += is_coll
             for mode, ptxt in modes:
                 stats["runs"] += 1
                 r = queryobs.run_query(data, loc, ptxt, mode)
                 if r.get("n", 0) > 0:
                     stats["nontrivial"] += 1
-                if mode == "opt" and r["out"] != "ok":
-                    pass
+                if is_coll and not xinfo and mode == "must":
+                    # beyond the listed properties: the collector algebra of YQuery against the code (drift counter)
+                    exp = "yperr" if c["err"] else ("ok" if c["n"] > 0 else "unmatched")
+                    got = "unmatched" if r["out"] == "ok" and r["n"] == 0 else r["out"]
+                    same = got == exp and (exp != "ok" or queryobs.same_nodes(loc, r["hits"], c["ids"]))
+                    stats["coll_agree" if same else "coll_differ"] += 1
+                    if not same and stats["coll_sample"] is None:
+                        stats["coll_sample"] = {"doc": text, "path": ptxt, "model": [exp, c["ids"]], "code": [got, queryobs.describe(loc, r.get("hits", []))]}
                 after_doc, after_ids = snapshot(data)
                 if not absdoc.same_table(after_doc, before_doc) or after_ids != before_ids:
                     d = editobs.diff_tables(after_doc, before_doc) or "container identities changed"
@@ -73,10 +82,13 @@ def run(ctx):
         corpus = [(d, [c for k, c in enumerate(cs) if "COLLECTOR" in c["ty"] or "KEYWORD" in c["ty"]
                        or (k + len(d) + ctx.seed) % 4 == 0]) for d, cs in corpus]
     items = [(d, cs, querycorpus.variant_of(d, ctx.seed, ctx.quick)) for d, cs in corpus]
-    tot = {"cases": 0, "runs": 0, "nontrivial": 0}
+    tot = {"cases": 0, "runs": 0, "nontrivial": 0, "coll_agree": 0, "coll_differ": 0, "coll_opt_runs": 0, "coll_sample": None}
     for out, stats in querycorpus.pmap(_work, items, chunk=8):
         for k in tot:
-            tot[k] += stats[k]
+            if k == "coll_sample":
+                tot[k] = tot[k] or stats[k]
+            else:
+                tot[k] += stats[k]
         for sig, desc, rp in out:
             ctx.violation(sig, desc, rp)
     editobs.run_histories(ctx, {"set_opt"}, "C09", ["MC_Edit_q.cfg"] if ctx.quick else ["MC_Edit_t.cfg"])
@@ -86,6 +98,9 @@ def run(ctx):
     ctx.coverage.update({
         "evaluations": tot["runs"] + ctx.coverage["creation_histories"],
         "distinct_nontrivial": tot["nontrivial"] + ctx.coverage.get("distinct_nontrivial", 0),
+        "collector_model_agreement": {"agree": tot["coll_agree"], "differ": tot["coll_differ"], "optional_mode_runs": tot["coll_opt_runs"],
+                                      "first_difference": tot["coll_sample"],
+                                      "note": "YQuery.CollectorStep (+, -, & over scalars) compared with get_nodes(); informational drift counter, not a C09 verdict"},
         "purity_runs": tot["runs"], "purity_cases": tot["cases"], "documents": len(corpus),
         "rule": "purity: every (document, path) case of the MC_Query corpora incl. collectors x {required, exists, optional-on-existing}, document snapshotted before/after; creation: every MC_Edit history ending in a creating set",
         "traces_validated_against_impl": tot["runs"] + ctx.coverage["creation_histories"], "exhaustive": True,
